@@ -145,9 +145,8 @@ func vpH_C13_router_cleanup() {
 	} else {
 		vpAssert(err != nil, "C13.router-returns-on-cancel")
 	}
-	for i := 0; i < 4; i++ {
-		vpYield() // asynchronous clean-up (if any) may complete
-	}
+	// judged at the moment serving returns: the statement requires that every goroutine
+	// of the session has exited by then, so clean-up cannot be left to a helper goroutine
 	n := 0
 	router.subs.subs.Loop(func(string, *safeMap[string, *subscriber]) { n++ })
 	vpAssert(n == 0, "C13.router-registry-empty-after-session")
